@@ -3,15 +3,20 @@ EXTENDS MC_Oracle
 c_FORD == <<"f1", "f2">>
 F(tok, start, iv, sr, end) == [tok |-> tok, start |-> start, iv |-> iv, sr |-> sr, end |-> end]
 OFF == F("t2", 1000000, 10, 1, 0)
-Cfg(pw, mn, md, ms, fd) == [pw |-> pw, mn |-> mn, md |-> md, ms |-> ms, fd |-> fd, gen |-> [t1 |-> 7, t2 |-> 0], rs |-> {0}]
+Cfg(pw, mn, md, ms, fd) == [pw |-> pw, mn |-> mn, md |-> md, ms |-> ms, fd |-> fd, gen |-> [t1 |-> 7, t2 |-> 0], ep |-> 0, rs |-> {0}]
 WithRs(c, rs) == [c EXCEPT !.rs = rs]
 g_RS == {{}, {1}, {2}, {3}, {4}, {5}, {6}, {2, 3}, {2, 4}, {3, 5}, {3, 6}, {4, 7}, {5, 6}, {6, 7}}
+WithEp(c, ep) == [c EXCEPT !.ep = ep]
 P(a, b, c) == [v1 |-> a, v2 |-> b, v3 |-> c]
 \* quick: one feeder per configuration; (maxNonce, interval) shapes (2,4) and (1,2); two power vectors
 c_CFGS == { Cfg(P(1,1,2), 2, 2, 2, [f1 |-> F("t1", 1, 4, 2, 0), f2 |-> OFF]),
             Cfg(P(1,2,3), 1, 2, 2, [f1 |-> F("t1", 1, 2, 2, 0), f2 |-> OFF]) }
 \* thorough: three shapes incl. maxDetId = 1 and the (2,2,5) power split
-t_CFGS == c_CFGS \cup { Cfg(P(2,2,5), 2, 1, 2, [f1 |-> F("t1", 1, 5, 2, 0), f2 |-> OFF]) }
+t_CFGS == c_CFGS \cup { Cfg(P(2,2,5), 2, 1, 2, [f1 |-> F("t1", 1, 5, 2, 0), f2 |-> OFF]),
+                        \* 3-block dogfood epoch: validator-set change (force seal) at EndBlock 4, inside the window of the round based at 3
+                        WithEp(Cfg(P(1,1,2), 2, 2, 2, [f1 |-> F("t1", 3, 4, 2, 0), f2 |-> OFF]), 3) }
+\* params update + restart while a message is cached (agc.params nil in recache)
+d_CFGS == { Cfg(P(1,1,2), 2, 2, 2, [f1 |-> F("t1", 3, 4, 2, 0), f2 |-> OFF]) }
 E(d, p) == [d |-> d, p |-> p]
 c_PSS == { <<E("1", 10)>>, <<E("1", 20)>>, <<E("1", 10), E("2", 20)>> }
 t_PSS == c_PSS \cup { <<E("2", 20)>> }
@@ -22,7 +27,7 @@ g_CFGS0 == { Cfg(pw, 2, 2, 3, [f1 |-> F("t1", 1, 4, 2, 0), f2 |-> F("t2", 2, 5, 
           { Cfg(pw, 2, 1, 2, [f1 |-> F("t1", 1, 5, 2, 0), f2 |-> F("t2", 2, 4, 1, 4)]) : pw \in {P(1,1,2), P(2,2,5)} } \cup
           \* MaxNonce above the package default 3 (replay window, lead L26)
           { Cfg(pw, 4, 2, 3, [f1 |-> F("t1", 1, 8, 2, 0), f2 |-> F("t2", 4, 8, 1, 0)]) : pw \in {P(1,1,1), P(2,2,5)} }
-g_CFGS == {WithRs(c, rs) : c \in g_CFGS0, rs \in g_RS}
+g_CFGS == {WithEp(WithRs(c, rs), ep) : c \in g_CFGS0, rs \in g_RS, ep \in {0, 3}}
 g_PSS == { <<E("1", 10)>>, <<E("1", 20)>>, <<E("2", 20)>>, <<E("1", 10), E("2", 20)>>, <<E("2", 20), E("1", 20)>> }
 g_PSSb == { <<E("1", 10)>>, <<E("1", 10), E("2", 20)>>, <<E("2", 20)>> }
 g_PSS2 == { <<E("1", 10)>>, <<E("2", 20)>> }
